@@ -6,7 +6,7 @@ CONSTANTS
   DefectByAddr = FALSE
   MaxLen = 2
   WithBad = FALSE
-  WithDup = TRUE
+  WithDup = FALSE
   MaxLevel = 5
 INVARIANTS TypeOK PropertyHolds
 CONSTRAINT Bounded
